@@ -115,9 +115,9 @@ def classify_ir(case):
     obs = [tuple(p) for p in case["observed"] if tuple(p) in linfo]
     try:
         tr, _ = impl(seed(gf.generate), env.key(case["key"], 0), modelir.to_jnp(constraint_map(ch_ref, obs)) if obs else None, *jargs, **jkw)
+        ch0 = gfi.to_np(impl(tr.get_choices))
     except ImplError as e:
         return [(f"setup_raises:{e.sig()}|{F}", str(e))], info
-    ch0 = gfi.to_np(tr.get_choices())
     f0 = refmodel.flat_leaves(ch0)
     free = [p for p in sorted(f0) if p not in obs]
     if kern == "mh":
@@ -198,6 +198,7 @@ def classify_ir(case):
         noise = {p: np.asarray(v, dtype=np.float64).reshape(np.shape(f0[p])) for p, v in zip(order, xi)}
         if kern == "mala":
             y = {p: x0[p] + 0.5 * eps**2 * g0[p] + eps * noise[p] for p in order}
+            mag = {p: 0.5 * eps**2 * np.abs(g0[p]) + eps * np.abs(noise[p]) for p in order}  # size of the move's components
             gy = fd_grad(logp_sel, y)
             lq_fwd = sum(float(np.sum(ss.norm.logpdf(y[p], x0[p] + 0.5 * eps**2 * g0[p], eps))) for p in order)
             lq_bwd = sum(float(np.sum(ss.norm.logpdf(x0[p], y[p] + 0.5 * eps**2 * gy[p], eps))) for p in order)
@@ -206,10 +207,12 @@ def classify_ir(case):
         else:
             x = {p: v.copy() for p, v in x0.items()}
             mom = {p: noise[p].copy() for p in order}
+            mag = {p: np.zeros_like(x0[p]) for p in order}
             gr = g0
             for _ in range(L):
                 mom = {p: mom[p] + 0.5 * eps * gr[p] for p in order}
                 x = {p: x[p] + eps * mom[p] for p in order}
+                mag = {p: mag[p] + eps * np.abs(mom[p]) for p in order}
                 gr = fd_grad(logp_sel, x)
                 mom = {p: mom[p] + 0.5 * eps * gr[p] for p in order}
             y = x
@@ -218,8 +221,11 @@ def classify_ir(case):
             log_alpha = (logp_sel(y) + k1) - (logp_sel(x0) + k0)
             what = f"{L} leapfrog steps of size {eps} from the scripted momentum"
         for p in order:
+            # float32 resolution of the position plus a relative error of the move itself (so that a move of size 1e-3 on a
+            # tight target is resolved as well as a move of size 1 on a wide one)
             scale = 1.0 + np.abs(y[p]) + np.abs(x0[p])
-            if not np.all(np.abs(np.asarray(fp[p], dtype=np.float64) - y[p]) <= 2e-3 * scale * (1 + (L if kern == "hmc" else 0))):
+            tol = 4e-6 * scale + 6e-3 * mag[p] * (1 + (L if kern == "hmc" else 0))
+            if not np.all(np.abs(np.asarray(fp[p], dtype=np.float64) - y[p]) <= tol):
                 fails.append((f"proposal:{C}", f"{'/'.join(p)}: proposed {np.asarray(fp[p]).ravel()[:4].tolist()} but {what} gives {y[p].ravel()[:4].tolist()} (x = {x0[p].ravel()[:4].tolist()}, grad = {g0[p].ravel()[:4].tolist()}, noise = {noise[p].ravel()[:4].tolist()})"))
                 return fails, info
     # 2. the acceptance threshold actually applied
